@@ -74,6 +74,18 @@ Theorem C19_no_overshoot : forall rs i t k, incr (times rs) -> (S i < length rs)
 Proof. exact interp_component_between. Qed.
 Print Assumptions C19_no_overshoot.
 
+(* the past is final (HistoryCont.v): whatever operations follow - accepted updates, refused updates, queries - a query
+   before the last record present now is answered as it would be answered now; no monotonicity or shape hypothesis.
+   Together with C19_refines this holds of the implementation model on every script with increasing update times. *)
+Theorem C19_past_is_final : forall a ops t, recs a <> [] -> t < last (times (recs a)) 0 ->
+  interp (recs (fst (arun a ops))) t = interp (recs a) t.
+Proof. exact past_is_final. Qed.
+Print Assumptions C19_past_is_final.
+
+Theorem C19_append_keeps_past : forall rs ext t, rs <> [] -> t < last (times rs) 0 -> interp (rs ++ ext) t = interp rs t.
+Proof. exact interp_past_stable. Qed.
+Print Assumptions C19_append_keeps_past.
+
 (* non-vacuity: a script that crosses two growth events (capacity 1 -> 2 -> 4), queries between records,
    satisfies the hypothesis and produces the interpolated value 5/2 at t = 3/2 *)
 Example C19_nonvacuous :
